@@ -85,6 +85,8 @@ contract(D + 'stack_training_data#list', props=['C20'],
 _MS_CELL = ("forall(lambda s, i2, j2, k2: implies(0 <= s and s < {n} and 0 <= i2 and i2 < all_series[s].shape[0] - window_size + 1 and "
             "0 <= j2 and j2 < window_size and 0 <= k2 and k2 < all_series[s].shape[1], "
             "{res}[row_offset({res}, s) + i2, j2*all_series[s].shape[1] + k2] == all_series[s][i2 + j2, k2]))")
+specfn('same_bits', native="lambda a, b: np.asarray(a, dtype=float).tobytes() == np.asarray(b, dtype=float).tobytes()")
+
 contract(D + 'stack_training_data_multiple_series', props=['C10', 'C07', 'C04'],
          params=dict(all_series='list[arr2[real]]', window_size='int'), returns='arr2[real]',
          requires=["len(all_series) >= 1", "window_size >= 1",
@@ -97,7 +99,13 @@ contract(D + 'stack_training_data_multiple_series', props=['C10', 'C07', 'C04'],
                                        "_comp1[s].shape[1] == all_series[s].shape[1] * window_size)",
                                        "forall(lambda s, i2, j2, k2: implies(0 <= s and s < _k and 0 <= i2 and i2 < all_series[s].shape[0] - window_size + 1 and "
                                        "0 <= j2 and j2 < window_size and 0 <= k2 and k2 < all_series[s].shape[1], "
-                                       "_comp1[s][i2, j2*all_series[s].shape[1] + k2] == all_series[s][i2 + j2, k2]))"])}},
+                                       "_comp1[s][i2, j2*all_series[s].shape[1] + k2] == all_series[s][i2 + j2, k2]))"])},
+                # the cell equation of the concatenation, evaluated natively with explicit offsets (the deductive clause uses the ghost row_offset)
+                'native_ensures': [("native:row-(offset(s)+i)-is-window-i-of-series-s",
+                                    "result.shape[0] == sum(len(t) - window_size + 1 for t in all_series) and "
+                                    "all(same_bits(result[sum(len(t) - window_size + 1 for t in all_series[:s]) + i, "
+                                    "j * all_series[s].shape[1]:(j + 1) * all_series[s].shape[1]], all_series[s][i + j]) "
+                                    "for s in range(len(all_series)) for i in range(len(all_series[s]) - window_size + 1) for j in range(window_size))")]},
          ensures=[("row-offsets-are-the-prefix-sums-of-the-stacked-lengths", "row_offset(result, 0) == 0 and "
                    "forall(0, len(all_series), lambda s: row_offset(result, s + 1) == row_offset(result, s) + all_series[s].shape[0] - window_size + 1) and "
                    "result.shape[0] == row_offset(result, len(all_series))"),
